@@ -1334,6 +1334,9 @@ func (e *SpecEnv) applyRec(sf *SpecFn, n *SpecEnv, args []SV) SV {
 	if sf.Ret != "" && sf.Ret != "mathint" {
 		ret = n.resolveType(sf.Ret)
 	}
+	if t, ok := recSubst[fc][name]; ok { // ext_induct.go: frame axiom construction replaces the recursive call by a bound variable
+		return SV{t: t, typ: ret}
+	}
 	comps, known := fc.recInfo[name]
 	if !known {
 		if fc.recBusy[name] {
@@ -1389,6 +1392,7 @@ func (e *SpecEnv) applyRec(sf *SpecFn, n *SpecEnv, args []SV) SV {
 		}
 		fc.ufAxioms[name] = fmt.Sprintf("(assert (forall (%s) (! (= %s %s) :pattern (%s))))", strings.Join(append(hdecls, decls...), " "), call, body.t, call)
 		fc.assumes["rec spec "+sf.Pkg+"."+sf.Name+": defining equation (syntactically well-founded on its last parameter)"] = true
+		e.extRecFrame(sf, n, name, comps, fc.tc.sortOf(ret))
 	}
 	var ts []string
 	for _, k := range comps {
